@@ -468,7 +468,7 @@ func run(id, tier, repo, verif, only string, workers int, trace, noReplay bool, 
 	qTimeout := 10000
 	maxSteps := int64(5_000_000)
 	maxPaths := int64(2_000_000)
-	budget := 8 * time.Minute
+	budget := 15 * time.Minute
 	if tier == "thorough" {
 		qTimeout = 60000
 		maxPaths = 50_000_000
